@@ -1,5 +1,282 @@
 import AvoVerif.Drv.Common
+import AvoVerif.Model.Data
 namespace Avo.Drv.C13
-open Avo.Drv
-def handlers : List (String × Handler) := []
+open Avo.Drv Avo.Data Avo.NumText
+
+def tyOf (s : String) : Option IntTy :=
+  match s with
+  | "i8" => some I8 | "u8" => some U8 | "i16" => some I16 | "u16" => some U16
+  | "i32" => some I32 | "u32" => some U32 | "i64" => some I64 | "u64" => some U64
+  | _ => none
+
+def hexNat (s : String) : Option Nat :=
+  if s.isEmpty then none else readDigits 16 s.toList 0
+
+/-- A constant token: `i8:<v>` … `u64:<v>`, `f32:<bits hex>:<text hex>:<asm bits hex>`,
+`f64:…`, `s:<bytes hex>`.  For floats the last field is what the assembler's
+conversion of the text gives (measured by the harness); it feeds the oracle. -/
+def constOf (t : String) : Option (Const × Option (List Char × Nat × Nat)) :=
+  match t.splitOn ":" with
+  | [k, v] =>
+    if k == "s" then (unhex v).map (fun bs => (Const.str bs, none))
+    else do
+      let ty ← tyOf k
+      let v ← v.toInt?
+      some (Const.int ty v, none)
+  | [k, bits, text, asmbits] => do
+    let n ← if k == "f32" then some 4 else if k == "f64" then some 8 else none
+    let bits ← hexNat bits
+    let text ← unhexStr text
+    let ab ← hexNat asmbits
+    some (Const.float n bits text.toList, some (text.toList, n, ab))
+  | _ => none
+
+abbrev Oracle := List (List Char × Nat × Nat)
+
+def fparseOf (o : Oracle) (text : List Char) (n : Nat) : Option Nat :=
+  (o.find? (fun e => e.1 == text && e.2.1 == n)).map (·.2.2)
+
+/-- `p <off> <const>` | `a <const>` | `g <n>` -/
+def opTok : List String → Option ((Op × Oracle) × List String)
+  | "p" :: off :: c :: ts => do
+    let off ← off.toInt?
+    let (c, o) ← constOf c
+    some ((Op.place off c, o.toList), ts)
+  | "a" :: c :: ts => do
+    let (c, o) ← constOf c
+    some ((Op.append c, o.toList), ts)
+  | "g" :: n :: ts => do
+    let n ← n.toInt?
+    some ((Op.grow n, []), ts)
+  | _ => none
+
+/-- `<off> <const>` -/
+def datumTok : List String → Option ((Datum × Oracle) × List String)
+  | off :: c :: ts => do
+    let off ← off.toInt?
+    let (c, o) ← constOf c
+    some ((⟨off, c⟩, o.toList), ts)
+  | _ => none
+
+def prOf (runes : List Nat) (r : Nat) : Bool := runes.contains r
+
+def flagsStr (fs : List Bool) : String :=
+  if fs.isEmpty then "-" else String.ofList (fs.map (fun b => if b then '1' else '0'))
+
+def strBytes (s : String) : List Nat := s.toUTF8.toList.map (·.toNat)
+
+/-- The printed block of a section. -/
+def renderBlock (pr : Nat → Bool) (sym attr : List Nat) (g : Global) : List Nat :=
+  let t := g.texts pr
+  let lines := t.1.map (DataText.render sym) ++ [globlRender sym attr t.2]
+  (lines.map (· ++ [10])).flatten
+
+/-! #### Reading the implementation's printed lines -/
+
+def splitAt (pat : List Nat) : List Nat → Option (List Nat × List Nat)
+  | [] => if pat.isEmpty then some ([], []) else none
+  | x :: xs =>
+    if pat.isPrefixOf (x :: xs) then some ([], (x :: xs).drop pat.length)
+    else (splitAt pat xs).map (fun p => (x :: p.1, p.2))
+
+def bytesToChars (bs : List Nat) : List Char := bs.map Char.ofNat
+
+/-- `DATA sym+off(SB)/len, $val` with `sym` given. -/
+def parseDataLine (sym : List Nat) (line : List Nat) : Option DataText := do
+  let pre := strBytes "DATA " ++ sym
+  if !pre.isPrefixOf line then none else
+  let rest := line.drop pre.length
+  let (off, rest) ← splitAt (strBytes "(SB)/") rest
+  let (len, val) ← splitAt (strBytes ", ") rest
+  match val with
+  | 36 :: 34 :: r => some ⟨bytesToChars off, bytesToChars len, .str (34 :: r)⟩
+  | 36 :: 40 :: r =>
+    match r.reverse with
+    | 41 :: body => some ⟨bytesToChars off, bytesToChars len, .flt (bytesToChars body.reverse)⟩
+    | _ => none
+  | 36 :: r => some ⟨bytesToChars off, bytesToChars len, .num (bytesToChars r)⟩
+  | _ => none
+
+/-- `GLOBL sym(SB), attr, $size` → size text. -/
+def parseGloblLine (sym : List Nat) (line : List Nat) : Option (List Char) := do
+  let pre := strBytes "GLOBL " ++ sym ++ strBytes "(SB), "
+  if !pre.isPrefixOf line then none else
+  let rest := line.drop pre.length
+  -- the size is after the last ", $"
+  let rec last (r : List Nat) (fuel : Nat) : Option (List Nat) :=
+    match fuel with
+    | 0 => none
+    | fuel + 1 =>
+      match splitAt (strBytes ", $") r with
+      | none => none
+      | some (_, tl) =>
+        match last tl fuel with
+        | some x => some x
+        | none => some tl
+  (last rest rest.length).map bytesToChars
+
+def splitLines (bs : List Nat) : List (List Nat) :=
+  let rec go (cur : List Nat) : List Nat → List (List Nat)
+    | [] => if cur.isEmpty then [] else [cur.reverse]
+    | 10 :: r => cur.reverse :: go [] r
+    | b :: r => go (b :: cur) r
+  go [] bs
+
+def parseBlock (sym : List Nat) (block : List Nat) : Option (List DataText × List Char) :=
+  let lines := splitLines block
+  match lines.reverse with
+  | [] => none
+  | gl :: revData => do
+    let size ← parseGloblLine sym gl
+    let ds ← revData.reverse.mapM (parseDataLine sym)
+    some (ds, size)
+
+/-! #### Acceptors -/
+
+def memB (d : Datum) (p : Int) : Bool := decide (d.lo ≤ p) && decide (p < d.hi)
+
+/-- The two data share a byte. -/
+def shareB (d o : Datum) : Bool :=
+  decide (0 < d.val.size) && decide (0 < o.val.size) && decide (d.lo < o.hi) && decide (o.lo < d.hi)
+
+/-- Judge the implementation's accept/reject decisions and final state:
+the property itself, replayed over the call sequence with the
+implementation's own flags. -/
+def acceptData (ops : List Op) (flags : List Bool) (data : List Datum) (size : Int) : String :=
+  let rec go (ops : List Op) (flags : List Bool) (acc : List Datum) (grows : List Int) : String × List Datum × List Int :=
+    match ops, flags with
+    | [], [] => ("ok", acc, grows)
+    | .place off v :: ops, f :: fs =>
+      let d : Datum := ⟨off, v⟩
+      if f then
+        if acc.any (shareB d) then ("bad-overlap-accepted", acc, grows) else go ops fs (acc ++ [d]) grows
+      else
+        if acc.any (overlaps d) then go ops fs acc grows else ("bad-spurious-reject", acc, grows)
+    | .append v :: ops, f :: fs =>
+      if !f then ("bad-append-rejected", acc, grows) else
+      -- Append may choose any free place: the implementation's datum is found in `data` below
+      go ops fs (acc ++ [⟨-1, v⟩]) grows
+    | .grow n :: ops, _ :: fs => go ops fs acc (grows ++ [n])
+    | _, _ => ("bad-flag-count", acc, grows)
+  let (verdict, placed, grows) := go ops flags [] []
+  if verdict != "ok" then verdict else
+  -- every placed constant is in the section at its offset (appended ones: at the offset the implementation chose)
+  -- (in any order: first the explicitly placed ones, then the appended ones)
+  if placed.length != data.length then "bad-data-count" else
+  let rec removeFirst (p : Datum → Bool) : List Datum → Option (List Datum)
+    | [] => none
+    | d :: ds => if p d then some ds else (removeFirst p ds).map (d :: ·)
+  let rec matchAll (want : List Datum) (have_ : List Datum) : Bool :=
+    match want with
+    | [] => have_.isEmpty
+    | w :: ws =>
+      match removeFirst (fun d => d.val == w.val && (w.off == -1 || w.off == d.off)) have_ with
+      | none => false
+      | some rest => matchAll ws rest
+  if !matchAll (placed.filter (·.off != -1) ++ placed.filter (·.off == -1)) data then "bad-data-list" else
+  -- pairwise byte-disjoint, inside the section
+  let rec pairwise : List Datum → Bool
+    | [] => true
+    | d :: ds => !ds.any (shareB d) && pairwise ds
+  if !pairwise data then "bad-overlap-in-section" else
+  if data.any (fun d => decide (d.lo < 0) || decide (size < d.hi)) then "bad-outside-section" else
+  if grows.any (fun n => decide (size < n)) then "bad-grow-ignored" else
+  if !(size == 0 || data.any (fun d => d.hi == size) || grows.contains size) then "bad-size-not-furthest-extent" else
+  "ok"
+
+def inScope (ops : List Op) : Bool :=
+  ops.all (fun op => match op with | .place off _ => decide (0 ≤ off) | _ => true)
+
+def handle : Handler
+  -- data <sym hex> <attr hex> <npr> runes… <nops> ops…
+  | "data" :: sym :: attr :: rest => do
+    let sym ← unhex sym
+    let attr ← unhex attr
+    let (runes, rest) ← listOf natTok rest
+    let (ops, _) ← listOf opTok rest
+    let r := run {} (ops.map (·.1))
+    let g := r.1
+    let dl := g.data.map (fun d => s!"{d.off}:{d.val.size}")
+    some (joinSp ([flagsStr r.2, toString g.size, toString g.data.length] ++ dl ++
+      [hex (renderBlock (prOf runes) sym attr g)]))
+  -- accept-data <flags> <size> <ndata> (off const)… <nops> ops…
+  | "accept-data" :: flags :: size :: rest => do
+    let size ← size.toInt?
+    let (data, rest) ← listOf datumTok rest
+    let (ops, _) ← listOf opTok rest
+    let ops := ops.map (·.1)
+    let fl := if flags == "-" then [] else flags.toList.map (· == '1')
+    if !inScope ops then some "ok"   -- negative offsets: outside the property's quantifier
+    else some (acceptData ops fl (data.map (·.1)) size)
+  -- accept-lines <sym hex> <size> <ndata> (off const)… <block hex>
+  --   assembling the implementation's printed lines (Lean's model of the assembler) gives the image
+  | "accept-lines" :: sym :: size :: rest => do
+    let sym ← unhex sym
+    let size ← size.toInt?
+    let (data, rest) ← listOf datumTok rest
+    match rest with
+    | [block] =>
+      let block ← unhex block
+      let g : Global := ⟨data.map (·.1), size⟩
+      let oracle : Oracle := (data.map (·.2)).flatten
+      if g.data.any (fun d => decide (d.off < 0)) then some "ok" else
+      match parseBlock sym block with
+      | none => some "bad-unreadable-lines"
+      | some texts =>
+        match assemble (fparseOf oracle) texts with
+        | none => some (if monotone g.data 0 then "bad-lines-do-not-assemble" else "bad-lines-not-in-increasing-order")
+        | some img => some (if img == image g then "ok" else "bad-lines-image")
+    | _ => none
+  -- accept-asm <mono|nonmono> <ok|fail> <size> <ndata> (off const)… <bytes hex>   (measured)
+  | "accept-asm" :: _ :: status :: size :: rest => do
+    let size ← size.toInt?
+    let (data, rest) ← listOf datumTok rest
+    match rest with
+    | [bytes] =>
+      let bytes ← unhex bytes
+      if status != "ok" then some "bad-assembler-rejects" else
+      let g : Global := ⟨data.map (·.1), size⟩
+      some (if bytes == image g then "ok" else "bad-assembled-bytes")
+    | _ => none
+  -- int <ty> <v> → text
+  | ["int", ty, v] => do
+    let ty ← tyOf ty
+    let v ← v.toInt?
+    some (hex ((Const.int ty v).asm (fun _ => false)).render)
+  -- accept-int <ty> <v> <text hex>: the assembler's reading of the text stores the constant's bytes
+  | ["accept-int", ty, v, text] => do
+    let ty ← tyOf ty
+    let v ← v.toInt?
+    let text ← unhex text
+    match text with
+    | 36 :: r =>
+      some (if asmValue (fun _ _ => none) ty.bytes (.num (bytesToChars r)) == some (Const.int ty v).enc then "ok"
+            else "bad-int-text")
+    | _ => some "bad-int-text"
+  -- str <bytes hex> <npr> runes… → text
+  | "str" :: bs :: rest => do
+    let bs ← unhex bs
+    let (runes, _) ← listOf natTok rest
+    some (hex ((Const.str bs).asm (prOf runes)).render)
+  -- accept-str <bytes hex> <text hex>
+  | ["accept-str", bs, text] => do
+    let bs ← unhex bs
+    let text ← unhex text
+    match text with
+    | 36 :: lit =>
+      some (if asmValue (fun _ _ => none) bs.length (.str lit) == some bs then "ok" else "bad-string-text")
+    | _ => some "bad-string-text"
+  -- accept-f32 / accept-f64 <bits hex> <text hex> <assembler's bits hex>   (measured)
+  | [cmd, bits, _, asmbits] =>
+    if cmd == "accept-f32" || cmd == "accept-f64" || cmd == "accept-asm-f32" || cmd == "accept-asm-f64" then do
+      let b ← hexNat bits
+      let a ← hexNat asmbits
+      some (if a == b then "ok" else s!"bad-float-text {asmbits}")
+    else none
+  | _ => none
+
+def handlers : List (String × Handler) :=
+  ["data", "accept-data", "accept-lines", "accept-asm", "int", "accept-int", "str", "accept-str",
+   "accept-f32", "accept-f64", "accept-asm-f32", "accept-asm-f64"].map (·, handle)
+
 end Avo.Drv.C13
